@@ -28,6 +28,12 @@ func ReadPEM(pemBytes []byte, callback PEMBlockCallback) error {
 
 	for {
 		block, next = pem.Decode(next)
+		if block == nil {
+			// nothing (more) to read: an empty file, white space or text after the last entry, or the
+			// beginning of an entry which is not completely written yet
+			break
+		}
+
 		if err := callback(idx, block.Type, block.Headers, block.Bytes); err != nil {
 			return err
 		}
